@@ -193,6 +193,13 @@ for make in (lambda: create_new_processor(processor=proc, parameter_dict={'detec
     new.detector.pixel.array[0, 0] = -1.0; new.detector._memory['trapped'][0] = -1.0
     new.pipeline.photon_collection.models[0].arguments['table'].append(99); new.pipeline.photon_collection.models[0].enabled = False
     new.detector.characteristics.quantum_efficiency = 0.9
+    before = copy.deepcopy(layout(proc))
+    for g in ['photon_collection'] + groups:          # every model of the copy, enabled or not
+        for m in getattr(new.pipeline, g).models:
+            m.arguments['level'] = -5; m.enabled = not m.enabled
+    if layout(proc) != before:
+        VIOLATED, DETAIL = True, "changing models of the new processor changed the caller's pipeline: " + repr([a for a, b in zip(layout(proc), before) if a != b][:2])
+        break
     if (det.pixel.array[0, 0] != 7.0 or det._memory['trapped'][0] != 1.0 or proc.pipeline.photon_collection.models[0].arguments['table'] != [1, 2, 3]
             or not proc.pipeline.photon_collection.models[0].enabled or det.characteristics.quantum_efficiency != 0.5):
         VIOLATED, DETAIL = True, "mutating the new processor changed the caller's: pixel[0,0]=%r memory=%r table=%r qe=%r" % (
